@@ -29,6 +29,7 @@ type Oblig struct {
 	C      *Ctx
 	Inputs []ModelVar // symbols whose model values describe the inputs
 	Note   string
+	Static    string // "ok" / "violated": decided by the generator itself (call-graph scan), no solver
 	Relax     string // extra hypothesis tried when the strict obligation is not proved
 	RelaxName string // name of the assumption class the relaxed proof depends on
 }
@@ -98,6 +99,7 @@ type exec struct {
 	sliceElem map[string]string // slice-valued heap array → element heap array
 	mapField  map[string]*types.Map
 	file      *ast.File // file declaring the function under proof (import aliases are per file)
+	usesCsprng bool     // the contract mentions csprng(): provenance flags are tracked
 }
 
 func (x *exec) note(f string, a ...interface{}) { x.notes[fmt.Sprintf(f, a...)] = true }
@@ -1010,6 +1012,7 @@ func (x *exec) sliceOp(fr *frame, i *ssa.Slice, s *State) {
 		r := fmt.Sprintf("(mk-slice %s %s %s %s)", App("s-ref", sl), x.c.IAdd(App("s-off", sl), lo), x.c.ISub(hi, lo), x.c.ISub(lim, lo))
 		nv := x.mkVal(x.c.Let("sl", "Slice", r), i.Type())
 		nv.Origin = xv.Origin
+		nv.OriginT = xv.OriginT
 		fr.vals[i] = nv
 	case *types.Basic: // string
 		st := x.term(xv)
@@ -1105,6 +1108,7 @@ func (x *exec) makeSlice(fr *frame, i *ssa.MakeSlice, s *State) {
 		}
 	}
 	ref := x.newRef(s, "mk")
+	x.clearCsprng(s, ref)
 	name, sortN := x.elemArr(et)
 	h := x.h.get(s, name, sortN)
 	x.h.set(s, name, sortN, Sto(h, ref, fmt.Sprintf("((as const (Array %s %s)) %s)", x.c.I(), x.c.SortOf(et), x.c.Zero(et))))
